@@ -11,11 +11,15 @@ VARIABLE l
 Ev == Trace[l]
 SlotOK(s) == /\ s[1] = s[2]
              /\ s[1] = 1 => s[3] = s[4]
+\* Fresh (C02): n successful writes by many goroutines at once, every returned version compared with every other one:
+\* "every successful write gives the record a version never handed out before" - dups counts the versions seen twice.
 Init == l = 1
-Next == /\ l <= Len(Trace) /\ Ev.op = "WideGet"
-        /\ Ev.err = "nil" /\ Ev.len = Ev.n
-        /\ \A j \in 1 .. Len(Ev.slots) : SlotOK(Ev.slots[j])
-        /\ l' = l + 1
+Next == /\ l <= Len(Trace) /\ l' = l + 1
+        /\ \/ /\ Ev.op = "WideGet"
+              /\ Ev.err = "nil" /\ Ev.len = Ev.n
+              /\ \A j \in 1 .. Len(Ev.slots) : SlotOK(Ev.slots[j])
+           \/ Ev.op = "Readers"
+           \/ Ev.op = "Fresh" /\ Ev.dups = 0 /\ Ev.errs = 0
 Spec == Init /\ [][Next]_l
 Accepted == AcceptByDiameter
 =============================================================================
